@@ -19,10 +19,73 @@ ROLE_TYPES = {
 ROLE_TRAITS = {"Method": "context::Method"}
 
 
+def instantiate_default_methods(doc):
+    """A provided (default) method of a crate trait that has exactly one implementing type is that type's method: `<S as T>::m` is made
+    from the provided body with `Self` read as S and its calls of the trait's other methods resolved to S's, and the calls of it are
+    resolved to the instance — static dispatch written out, nothing else.  Returns the instantiated keys."""
+    import copy
+    import json
+    fns = doc["fns"]
+    impls = {}
+    for k, f in fns.items():
+        imp = f.get("impl") or {}
+        if imp.get("trait") and imp.get("trait_local"):
+            impls.setdefault(imp["trait"], set()).add(imp["self"])
+    made = {}
+    for k, f in list(fns.items()):
+        if f.get("impl") or f.get("kind") != "AssocFn" or "::" not in k:
+            continue
+        trait, name = k.rsplit("::", 1)
+        selfs = impls.get(trait)
+        if not selfs or len(selfs) != 1:
+            continue
+        S = next(iter(selfs))
+        nk = "<%s as %s>::%s" % (S, trait, name)
+        if nk in fns:
+            continue
+        made[k] = (nk, S, trait)
+    if not made:
+        return []
+    for k, (nk, S, trait) in made.items():
+        text = json.dumps(fns[k], ensure_ascii=False)
+        text = re.sub(r"(?<![A-Za-z0-9_])Self(?![A-Za-z0-9_])", lambda _m: json.dumps(S, ensure_ascii=False)[1:-1], text)
+        nf = json.loads(text)
+        nf["path"] = nk
+        nf["impl"] = {"self": S, "trait": trait, "trait_ref": "<%s as %s>" % (S, trait), "trait_local": True}
+        nf["instantiated_from"] = k
+        fns[nk] = nf
+    for k, f in fns.items():
+        bodies = [f.get("mir")] + list(f.get("promoted") or [])
+        for m in bodies:
+            if not m:
+                continue
+            for b in m["blocks"]:
+                t = b["term"]
+                c = t.get("callee") if t["k"] == "call" else None
+                if not c or not c.get("trait"):
+                    continue
+                for dk, (nk, S, trait) in made.items():
+                    if c.get("trait") != trait or c.get("self_ty") != S:
+                        continue
+                    if c.get("path") == dk:
+                        c["resolved"], c["rkind"], c["rlocal"] = nk, "item", True
+                    elif c.get("rkind") == "unresolved":
+                        tgt = "<%s as %s>::%s" % (S, trait, c.get("name"))
+                        if tgt in fns:
+                            c["resolved"], c["rkind"], c["rlocal"] = tgt, "item", True
+    for k in made:
+        fns.pop(k, None)
+    return sorted(nk for nk, _, _ in made.values())
+
+
 def canonicalise(doc):
     """Rewrites the def-paths of role types that live in another module than the rules' vocabulary names them in.
     Returns (doc, {actual path: canonical path}); the doc is returned unchanged when nothing moved."""
     import json
+    try:
+        instantiate_default_methods(doc)
+    except Exception:
+        pass
     paths = [a["path"] for a in doc["adts"]]
     mapping = {}
     for name, canon in ROLE_TYPES.items():
